@@ -39,6 +39,7 @@ MIN_REACH = {
     "resown_from_reloaded_crop": {"quick": 20, "thorough": 250},
     "crops_whose_function_was_assigned_through_the_crop": {"quick": 5, "thorough": 60},
     "farmer_crops_built_by_the_generic_constructor_with_shuffle": {"quick": 10, "thorough": 100},
+    "farmer_crops_reaped_without_sync": {"quick": 3, "thorough": 40},
 }
 TIME_BUDGET = {"quick": 400, "thorough": 3400}
 CASE_TIMEOUT = {"quick": 300, "thorough": 600}
@@ -275,6 +276,23 @@ def run_case(ctx, case):
     reap_kw = {}
     if farmer == "harvester":
         reap_kw["overwrite"] = case["policy"]
+    # a look at the results without merging them into the accumulated data (sync=False): same result, recorded as the
+    # farmer's last one, and the data on disk stays as it is - as for the direct call with sync=False
+    nosync = farmer in ("harvester", "sampler") and case["pre"] and not case["fresh"] and not case["to_df"] and case["idx"] % 3 == 2 \
+        and not case.get("writer_between") and not (farmer == "harvester" and case["policy"] is None)
+    # (with the default policy a direct un-synced harvest still checks the new data against the accumulated data and may
+    #  refuse it; a reap without sync does not merge at all, so there is nothing to refuse: only the two deciding policies)
+    dkw = {}
+    tbl_before = None
+    if nosync:
+        reap_kw["sync"] = False
+        if farmer == "harvester":
+            dkw["sync"] = False
+        else:
+            # (sample_combos always syncs: the direct side is the ordinary run; on the crop side the table must stay as it was)
+            with quiet():
+                tbl_before = xyzpy.load_df(f1.data_name)
+        ctx.count("farmer_crops_reaped_without_sync")
     try:
         with quiet():
             if case["fresh"]:
@@ -322,13 +340,13 @@ def run_case(ctx, case):
                                   **({"constants": dict(w["constants"])} if w["constants"] else {}))
             elif farmer == "harvester":
                 try:
-                    direct_run(f2, overwrite=case["policy"], **({"constants": dict(w["constants"])} if w["constants"] else {}))
+                    direct_run(f2, overwrite=case["policy"], **dkw, **({"constants": dict(w["constants"])} if w["constants"] else {}))
                     out2 = f2.last_ds
                 except Exception as e:
                     err2 = e
             else:
                 np.random.seed(case["rseed"] % (2 ** 32))
-                out2 = f2.sample_combos(case["n_samples"], verbosity=0)
+                out2 = f2.sample_combos(case["n_samples"], verbosity=0, **dkw)
     except Exception as e:
         for msg in bad[:2]:                 # (what was found so far is reported before the harness error surfaces)
             ctx.violation(case, msg, dict(sig, oracle=" ".join(msg.split(" ")[:3])))
@@ -412,7 +430,11 @@ def run_case(ctx, case):
             a, b = xyzpy.load_df(f1.data_name), xyzpy.load_df(f2.data_name)
             ctx.count("sampler_tables_compared")
             cols = sorted(b.columns)
-            if sorted(a.columns) != cols or Counter(refmodel.df_rows(a, cols)) != Counter(refmodel.df_rows(b, cols)):
+            if tbl_before is not None:
+                ca_ = sorted(a.columns)
+                if ca_ != sorted(tbl_before.columns) or refmodel.df_rows(a, ca_) != refmodel.df_rows(tbl_before, ca_):
+                    bad.append("a reap without sync changed the sampler's table on disk (%d rows, %d before)" % (len(a), len(tbl_before)))
+            elif sorted(a.columns) != cols or Counter(refmodel.df_rows(a, cols)) != Counter(refmodel.df_rows(b, cols)):
                 bad.append("sampler table after reap (%d rows) differs from the table after direct sampling (%d rows)" % (len(a), len(b)))
         except Exception as e:
             bad.append("comparing sampler tables raised %r" % (e,))
